@@ -52,9 +52,9 @@ theorem sumRat_zero_of_all_zero : ∀ {l : List ℚ}, (∀ x ∈ l, x = 0) → s
     rw [sumRat_cons, h x (by simp), sumRat_zero_of_all_zero (l := l) (fun y hy => h y (by simp [hy]))]
     simp
 
-theorem normalise_some {raw fs : List ℚ} (h : normalise raw = some fs) :
+theorem normalise_some {raw fs : List ℚ} (h : normaliseFreqs raw = some fs) :
     0 < sumRat raw ∧ fs = raw.map (· / sumRat raw) ∧ sumRat fs = 1 := by
-  unfold normalise at h
+  unfold normaliseFreqs at h
   split at h
   · rename_i hpos
     have hfs := (Option.some.inj h).symm
@@ -62,8 +62,8 @@ theorem normalise_some {raw fs : List ℚ} (h : normalise raw = some fs) :
     rw [hfs, sumRat_map_div, div_self (ne_of_gt hpos)]
   · exact absurd h (by simp)
 
-theorem normalise_eq_none {raw : List ℚ} : normalise raw = none ↔ sumRat raw ≤ 0 := by
-  unfold normalise
+theorem normalise_eq_none {raw : List ℚ} : normaliseFreqs raw = none ↔ sumRat raw ≤ 0 := by
+  unfold normaliseFreqs
   split
   · rename_i h; simp only [reduceCtorEq, false_iff, not_le]; exact h
   · rename_i h; simp only [true_iff]; exact not_lt.mp h
@@ -263,7 +263,7 @@ theorem finishPrior_spec (keep : List Bool) (m : Bool) (vals : List (Option ℚ)
     (finishPrior keep m vals).nanRaw = (select (maskedVals m vals) keep).any Option.isNone ∧
     (finishPrior keep m vals).raw = (select (maskedVals m vals) keep).map (fun x => x.getD 0) ∧
     (finishPrior keep m vals).freqs
-      = if (finishPrior keep m vals).nanRaw then none else normalise (finishPrior keep m vals).raw :=
+      = if (finishPrior keep m vals).nanRaw then none else normaliseFreqs (finishPrior keep m vals).raw :=
   ⟨rfl, rfl, rfl, rfl, rfl⟩
 
 theorem locusPrior_inv {r : RecordM} {tag filter : Option String} {P : LocusPriorM}
